@@ -278,6 +278,46 @@ def _replay_steps(trans, world, snaps, qs, problems, hist, pol, folder):
   return {"problems": problems, "nq": nq, "hist": hist}
 
 
+def _stateful_replay(item):
+  """History-independence on a STATEFUL model (a resource variable accumulates across invocations): every calibrate() result and
+  every quantize() output of the history-laden Quantizer equals that of a fresh Quantizer given equal arguments."""
+  from ai_edge_quantizer import quantizer
+  hist, seed = item
+  model = open(os.path.join(common.VERIF, "fixtures", "resource_variable_accumulator.tflite"), "rb").read()
+  rng = np.random.default_rng(seed + 11)
+  data = {d: [{"x": (rng.normal(size=(1, 4)) * (1 + i)).astype(np.float32)} for i in range(2)] for d in ("D1", "D2")}
+  data["D0"] = []
+  recs = recipes()
+  q = quantizer.Quantizer(model)
+  cals, problems, ncal = [], [], 0
+  for step, act in enumerate(hist):
+    kind = act[0]
+    try:
+      if kind == "load":
+        q.load_quantization_recipe(copy.deepcopy(recs[act[2]]))
+      elif kind == "calibrate":
+        if act[3] > len(cals):
+          return {"problems": [], "ncal": 0, "hist": hist}
+        prev = cals[act[3] - 1] if act[3] else None
+        res = q.calibrate(list(data[act[2]]), previous_calibration_result=copy.deepcopy(prev))
+        if res == {} and not q.need_calibration:
+          continue
+        cals.append(res)
+        ncal += 1
+        fresh = quantizer.Quantizer(model, copy.deepcopy(q.get_quantization_recipe())).calibrate(list(data[act[2]]), previous_calibration_result=copy.deepcopy(prev))
+        if not deep_equal(res, fresh):
+          problems.append(("history-dependence", "step %d %s: calibrate() differs from a fresh Quantizer given equal arguments" % (step + 1, act[:-1])))
+      elif kind == "quantize":
+        cal = cals[act[2] - 1] if act[2] and act[2] <= len(cals) else None
+        out = bytes(q.quantize(copy.deepcopy(cal)).quantized_model)
+        ref = bytes(quantizer.Quantizer(model, copy.deepcopy(q.get_quantization_recipe())).quantize(copy.deepcopy(cal)).quantized_model)
+        if out != ref:
+          problems.append(("history-dependence", "step %d %s: quantize() bytes differ from a fresh Quantizer given equal arguments" % (step + 1, act[:-1])))
+    except Exception:  # pylint: disable=broad-except
+      continue      # (raising calls are the main replay's subject)
+  return {"problems": problems, "ncal": ncal, "hist": hist}
+
+
 CHILD = r"""
 import sys, pickle, hashlib, os, copy
 sys.path.insert(0, sys.argv[2]); os.environ['TF_CPP_MIN_LOG_LEVEL']='3'
@@ -384,10 +424,19 @@ def main():
         chk.note("spec-drift outcome %s (a fresh Quantizer given equal arguments behaves the same)" % msg)
         continue
       chk.violation("%s: %s" % (kind, msg), {"property": "C14", "history": out["hist"], "clause": kind})
+  # stateful model: histories with at least two calibrate() calls on one Quantizer
+  two_cal = sorted(k for k in trans_deep if sum(1 for a in json.loads(k) if a[0] == "calibrate") >= 2)
+  sitems = [(json.loads(k), args.seed) for k in common.sample_keep(two_cal, 120 if args.tier == "quick" else 3000, args.seed)]
+  nstate = 0
+  with cf.ProcessPoolExecutor(max_workers=args.procs, initializer=_winit) as ex:
+    for out in ex.map(_stateful_replay, sitems, chunksize=4):
+      nstate += out["ncal"]
+      for kind, msg in out["problems"]:
+        chk.violation("%s (stateful model): %s" % (kind, msg), {"property": "C14", "history": out["hist"], "clause": kind, "model": "resource_variable_accumulator"})
   nproc = fresh_process_check(chk, args.seed, args.tier)
   chk.cov.update({
       "states": r.distinct + rd.distinct, "transitions": r.generated + rd.generated, "histories_continuing_after_a_raise": len(keys_deep), "histories_with_save": len([k for k in keys if has_save(k)]), "traces_validated_against_impl": len(results), "transitions_emitted": len(trans),
-      "quantize_calls_compared_with_fresh_quantizer": nq, "fresh_process_runs": nproc, "max_history": maxlen,
+      "quantize_calls_compared_with_fresh_quantizer": nq, "fresh_process_runs": nproc, "stateful_model_calibrations_compared_with_fresh_quantizer": nstate, "max_history": maxlen,
       "evaluations": len(results), "distinct_nontrivial": sum(1 for o in results if o["nq"] > 0),
       "rule": "history = sequence over {load R (3 recipes), load_config_policy (2 policies, process-global), calibrate(D, previous result), quantize(result), validate, "
               "result.save(name)} on 2 Quantizers sharing <= 2 calibration results and <= 2 kept results (length <= max_history), and on 1 Quantizer (length <= max_history + 3); "
